@@ -263,6 +263,9 @@ func codecs(seed uint64, pairs int, cnt map[string]int64) []string {
 	var msgs []string
 	bound := []uint32{0, 1, 2, 3, 255, 256, 65535, 65536, 1<<31 - 1, 1 << 31, 1<<32 - 1}
 	check := func(id, gen uint32) {
+		if len(msgs) > 20 {
+			return
+		}
 		cnt["codec-pairs"]++
 		e, err := mkEntity(id, gen)
 		if err != nil {
@@ -283,6 +286,71 @@ func codecs(seed uint64, pairs int, cnt map[string]int64) []string {
 		var wr wrap
 		if err != nil || json.Unmarshal(b, &wr) != nil || wr.E != e {
 			msgs = append(msgs, fmt.Sprintf("encoding/json round trip of (%d,%d) gives %v", id, gen, wr.E))
+		}
+		// ... and in every position in which encoding/json meets a handle: addressable or not, by value, by pointer,
+		// behind an interface, as element, as map value
+		type nest struct {
+			In  wrap
+			Ptr *ecs.Entity
+			L   []ecs.Entity
+			A   [2]ecs.Entity
+			M   map[string]ecs.Entity
+		}
+		shapes := []struct {
+			name string
+			enc  any
+			dec  func([]byte) (ecs.Entity, error)
+		}{
+			{"Entity value", e, func(b []byte) (x ecs.Entity, err error) { err = json.Unmarshal(b, &x); return }},
+			{"*Entity", &e, func(b []byte) (x ecs.Entity, err error) { err = json.Unmarshal(b, &x); return }},
+			{"[]Entity", []ecs.Entity{e}, func(b []byte) (ecs.Entity, error) {
+				var x []ecs.Entity
+				err := json.Unmarshal(b, &x)
+				if err != nil || len(x) != 1 {
+					return ecs.Entity{}, fmt.Errorf("%v len %d", err, len(x))
+				}
+				return x[0], nil
+			}},
+			{"[1]Entity value", [1]ecs.Entity{e}, func(b []byte) (ecs.Entity, error) {
+				var x [1]ecs.Entity
+				err := json.Unmarshal(b, &x)
+				return x[0], err
+			}},
+			{"map[string]Entity", map[string]ecs.Entity{"k": e}, func(b []byte) (ecs.Entity, error) {
+				var x map[string]ecs.Entity
+				err := json.Unmarshal(b, &x)
+				return x["k"], err
+			}},
+			{"*struct", &wrap{e}, func(b []byte) (ecs.Entity, error) {
+				var x wrap
+				err := json.Unmarshal(b, &x)
+				return x.E, err
+			}},
+			{"any(Entity)", any(e), func(b []byte) (x ecs.Entity, err error) { err = json.Unmarshal(b, &x); return }},
+		}
+		for _, sh := range shapes {
+			cnt["json-shapes"]++
+			b, err := json.Marshal(sh.enc)
+			if err != nil {
+				msgs = append(msgs, fmt.Sprintf("encoding/json of (%d,%d) as %s: %v", id, gen, sh.name, err))
+				continue
+			}
+			got, err := sh.dec(b)
+			if err != nil || got != e {
+				msgs = append(msgs, fmt.Sprintf("encoding/json round trip of (%d,%d) as %s gives %v (%s, err %v)", id, gen, sh.name, got, b, err))
+			}
+		}
+		nv := nest{In: wrap{e}, Ptr: &e, L: []ecs.Entity{e, e}, A: [2]ecs.Entity{e, e}, M: map[string]ecs.Entity{"a": e}}
+		for pass, enc := range []any{nv, &nv} {
+			cnt["json-shapes"]++
+			b, err := json.Marshal(enc)
+			var got nest
+			if err == nil {
+				err = json.Unmarshal(b, &got)
+			}
+			if err != nil || got.In.E != e || got.Ptr == nil || *got.Ptr != e || len(got.L) != 2 || got.L[1] != e || got.A[1] != e || got.M["a"] != e {
+				msgs = append(msgs, fmt.Sprintf("encoding/json round trip of (%d,%d) inside a nested struct (pass %d) fails: %s, err %v", id, gen, pass, b, err))
+			}
 		}
 		bin, err := e.MarshalBinary()
 		var e3 ecs.Entity
